@@ -38,9 +38,10 @@ let handle line =
     if status <> "ok" then report ("status-" ^ status) line
     else begin
       let e = expr_of (Sexp.parse tin) and o = expr_of (Sexp.parse (L.hd rest)) in
-      (* conditions lose one outer pair of parentheses before the rule applies (remove_condition_parentheses);
-         a condition uses one value only, so that pair cannot truncate anything *)
-      let e = if mctx = "Cond" then (match e with Paren x -> x | _ -> e) else e in
+      (* conditions lose every outer pair of parentheses before the rule applies (remove_condition_parentheses, all layers
+         since the repair D42); a condition uses one value only, so those pairs cannot truncate anything
+         (ParensIdem.condition_rule_keeps_first_value) *)
+      let e = if mctx = "Cond" then Parens.strip e else e in
       let c = ctx_of mctx in
       Hashtbl.replace distinct (mctx, e, o) ();
       if e <> o then incr nontrivial;
